@@ -4,6 +4,7 @@ import (
 	"bytes"
 	"fmt"
 	"go/token"
+	"os"
 	"strings"
 	"sync"
 	"testing"
@@ -238,6 +239,10 @@ func c12Enumerate(tier string) [][]uint32 {
 						flags |= 1
 					}
 					out = append(out, []uint32{uint32(pi), uint32(mode), uint32(k), 0, uint32(en), flags, uint32((k + en) % 5)})
+					if tier == "thorough" || (k+pi)%3 == 0 {
+						// the same point with an interrupt requested at the instant of the panic
+						out = append(out, []uint32{uint32(pi), uint32(mode), uint32(k), 0, uint32(en), flags | 4, uint32((k + en + 1) % 5)})
+					}
 					if tier == "thorough" && mode == 0 {
 						// pairs: a second panic while the first is being handled (statements keep
 						// being counted through the deferred calls that run during unwinding)
@@ -270,7 +275,7 @@ func init() {
 	register(&Prop{
 		ID:    "C12",
 		Level: "fault_enumeration",
-		Rule: "enumeration of (probe program, fault point): for each of 8 probe programs (nested calls and loops; defers that recover / modify named results / call deeper; closures; single-goroutine select; a program panic re-panicked by a deferred call; breakpoints under the debugger option; directly deferred compiled functions and builtins running while the function is already panicking) a panic is injected before EVERY executed statement k = 1..N (statement seam) and inside EVERY call of a compiled function j = 1..M, entered through Eval / Compile+RunExpr / ParseEvalPrint / DebugExpr with the debugger and trap-panic options varied; thorough adds all four entry paths per point and pairs (k, k+d), d = 1..12, where the second panic lands while the first is being handled. " +
+		Rule: "enumeration of (probe program, fault point): for each of 8 probe programs (nested calls and loops; defers that recover / modify named results / call deeper; closures; single-goroutine select; a program panic re-panicked by a deferred call; breakpoints under the debugger option; directly deferred compiled functions and builtins running while the function is already panicking) a panic is injected before EVERY executed statement k = 1..N (statement seam) and inside EVERY call of a compiled function j = 1..M, entered through Eval / Compile+RunExpr / ParseEvalPrint / DebugExpr with the debugger and trap-panic options varied; every third point (thorough: every point) is repeated with an interrupt requested at the instant the panic is raised; thorough adds all four entry paths per point and pairs (k, k+d), d = 1..12, where the second panic lands while the first is being handled. " +
 			"non-trivial = the injected panic fired; distinct = distinct (probe, kind, k, k2, entry, options)",
 		Runs:      func(tier string) int { return 0 },
 		Enumerate: c12Enumerate,
@@ -281,7 +286,7 @@ func init() {
 			return 2 * time.Minute
 		},
 		Run:        runC12,
-		FaultKinds: []string{"panic_before_statement", "panic_inside_compiled_function", "second_panic_while_unwinding", "panic_escaped_evaluation", "panic_recovered_by_program", "panic_trapped_by_repl_path", "evaluation_aborted_after_statement_budget"},
+		FaultKinds: []string{"panic_before_statement", "panic_inside_compiled_function", "second_panic_while_unwinding", "panic_escaped_evaluation", "panic_recovered_by_program", "panic_trapped_by_repl_path", "evaluation_aborted_after_statement_budget", "interrupt_requested_with_the_panic"},
 		ProbeNames: []string{"entry_Eval", "entry_Compile+RunExpr", "entry_ParseEvalPrint", "entry_DebugExpr", "option_debugger", "option_trap_panic", "battery_events_compared"},
 		RealVsStub: []string{
 			"real: every line of the interpreter (executor, deferred restore, RunExpr/DebugExpr/ParseEvalPrint, prepareEnv); the battery and the probes are interpreted code",
@@ -298,9 +303,10 @@ func runC12(t *testing.T, ch *sim.Choices, tier string) (o Outcome) {
 	c12Init()
 	en := ch.Stream("enum")
 	pi, mode, k, k2 := en.Draw(len(c12Probes)), en.Draw(2), en.Draw(1<<20), en.Draw(1<<20)
-	entry, flags, vk := en.Draw(nEntries), en.Draw(4), en.Draw(5)
+	entry, flags, vk := en.Draw(nEntries), en.Draw(8), en.Draw(5)
 	p := c12Probes[pi]
 	debugger, trap := flags&1 != 0 || p.Debug || entry == entryDebug, flags&2 != 0
+	withInterrupt := flags&4 != 0 // an interrupt is requested at the instant the panic is raised
 	e, lerr := newC12Env(debugger, trap)
 	if lerr != "" {
 		o.fail("interp-error", "c12p|load", lerr)
@@ -325,6 +331,9 @@ func runC12(t *testing.T, ch *sim.Choices, tier string) (o Outcome) {
 			nstmt++
 			if nstmt == k || (k2 != 0 && nstmt == k2) {
 				fired++
+				if withInterrupt {
+					e.ir.Interrupt(os.Interrupt)
+				}
 				panic(faultValue(vk, fmt.Sprint("stmt", nstmt)))
 			}
 			if nstmt > budget {
@@ -346,6 +355,9 @@ func runC12(t *testing.T, ch *sim.Choices, tier string) (o Outcome) {
 		ctx.FaultFn = func(site string) {
 			if ctx.NFault == k {
 				fired++
+				if withInterrupt {
+					e.ir.Interrupt(os.Interrupt)
+				}
 				panic(faultValue(vk, fmt.Sprint("hook", k, site)))
 			}
 		}
@@ -372,6 +384,9 @@ func runC12(t *testing.T, ch *sim.Choices, tier string) (o Outcome) {
 	if fired > 1 {
 		o.fault("second_panic_while_unwinding", 1)
 	}
+	if fired > 0 && withInterrupt {
+		o.fault("interrupt_requested_with_the_panic", 1)
+	}
 	if exceeded {
 		o.fault("evaluation_aborted_after_statement_budget", 1)
 	}
@@ -390,7 +405,7 @@ func runC12(t *testing.T, ch *sim.Choices, tier string) (o Outcome) {
 	o.Nontrivial = fired > 0
 	o.Hash = sim.Mix(uint64(pi), uint64(mode), uint64(k), uint64(k2), uint64(entry), uint64(flags))
 	o.EventHash = hashStrings(hashStrings(0, got), []string{fmtPanic(esc)})
-	desc := fmt.Sprintf("probe %s, panic %s %d (second at %d), entry %s, debugger=%v trap=%v, value kind %d; escaped=%s", p.Name, []string{"before statement", "inside compiled call"}[mode], k, k2, entryNames[entry], debugger, trap, vk, fmtPanic(esc))
+	desc := fmt.Sprintf("probe %s, panic %s %d (second at %d), entry %s, debugger=%v trap=%v interrupt=%v, value kind %d; escaped=%s", p.Name, []string{"before statement", "inside compiled call"}[mode], k, k2, entryNames[entry], debugger, trap, withInterrupt, vk, fmtPanic(esc))
 	o.Sample = map[string]interface{}{"case": desc, "battery": got}
 	if i, x, y := firstDiff(got, want); i >= 0 {
 		o.fail("battery-mismatch", normKey("c12", stripDigits(x), stripDigits(y)),
